@@ -5,7 +5,7 @@
    Pop/Remove).  Theorems hold for ALL capacities cap >= 0, icap > 0 (the code's
    2^20 and 8 are an instance) within one NTP era. *)
 From ST Require Base.Mutex.
-From ST Require Import Base.Ints Model.NtpTime Model.Tss Proofs.TssProofs Proofs.TssInv Proofs.TssRun Proofs.TssExact.
+From ST Require Import Base.Ints Model.NtpTime Model.Tss Proofs.TssProofs Proofs.TssInv Proofs.TssRun Proofs.TssExact Proofs.TssFrame Proofs.TssSerial.
 From Coq Require Import ZArith List.
 Import ListNotations.
 Open Scope Z_scope.
@@ -120,6 +120,55 @@ Theorem C07_lock_order_respects_program_order : forall (s0 : tss) threads sched 
   = nth u threads [].
 Proof. exact (Mutex.mutex_program_order tss). Qed.
 Print Assumptions C07_lock_order_respects_program_order.
+
+(* the mutex theorem instantiated with the store: every handleRequest / updateTXTimestamp call
+   is one critical section of tssMu that performs the model's step (the reply is computed inside
+   it and is part of the shared log).  For ANY number of listener goroutines, each with any
+   program of calls, and ANY schedule: once no call is in progress, the store AND all replies
+   are exactly those of the sequential run (Tss.run_log - the histories C06 and C07 quantify
+   over) of the calls in lock-acquisition order, and that order interleaves the goroutines'
+   own program orders.  None = the queue was told to pop something that is not a minimum. *)
+Theorem C07_concurrent_calls_serialize : forall c (threads : list (list op)) (sched : list nat),
+  let final := Mutex.run shared sched (Mutex.init shared (Some (tss_empty, [])) (map (map (call_section c)) threads)) in
+  Mutex.holder shared final = None ->
+  exists ops : list op,
+    map (call_section c) ops = map snd (rev (Mutex.order shared final)) /\
+    Mutex.st shared final = run_log c tss_empty [] ops /\
+    (forall u, Mutex.entered shared u final ++ nth u (Mutex.work shared final) [] = map (call_section c) (nth u threads [])).
+Proof. exact calls_serialize. Qed.
+Print Assumptions C07_concurrent_calls_serialize.
+
+(* the hypothesis is met: two goroutines, one call each, goroutine 1 enters first *)
+Example C07_concurrent_calls_nonvacuous :
+  let t := 1717171717000000000 in
+  let rq := {| q_org := 0; q_rx := 5; q_tx := 5 |} in
+  let threads := [[OpHandle 1 rq t (t + 10) 0]; [OpHandle 2 rq (t + 100) (t + 110) 0]] in
+  let final := Mutex.run shared [1; 0; 1; 1; 0; 0; 0]%nat
+                 (Mutex.init shared (Some (tss_empty, [])) (map (map (call_section real_config)) threads)) in
+  Mutex.holder shared final = None /\
+  match Mutex.st shared final with Some (s, log) => map it_key (items s) = [1; 2] /\ length log = 2%nat | None => False end.
+Proof. cbv zeta. split; [vm_compute; reflexivity|]. vm_compute. split; reflexivity. Qed.
+
+(* frame: a request or a transmit-timestamp report of one client leaves the item of every other
+   client exactly as it was (only the evicted client's item disappears); the item of the client
+   itself keeps a subset of its exchanges plus possibly the reported one *)
+Theorem C07_frame : forall k c s log,
+  0 < icap c -> 0 <= cap c -> reachable k c s log ->
+  (forall cid q rxt now victim out, handle c s cid q rxt now victim = Some out ->
+     forall x, In x (items (o_state out)) -> it_key x <> cid -> In x (items s)) /\
+  (forall cid rxt txt x, In x (items (t_state (update_tx s cid rxt txt))) ->
+     In x (items s) \/
+     (it_key x = cid /\ exists it, find_item cid (items s) = Some it /\
+        forall e, In e (it_ents x) ->
+          In e (it_ents it) \/
+          (e = {| e_rx := to64 rxt; e_tx := to64 (t_txt (update_tx s cid rxt txt)) |} /\
+           exists e0, In e0 (it_ents it) /\ e_rx e0 = to64 rxt))).
+Proof.
+  intros k c s log Hi Hc Hr. destruct (reachable_inv k c Hi s log Hc Hr) as [[Hnd _] _]. split.
+  - intros cid q rxt now victim out Hh. exact (handle_items_frame c s cid q rxt now victim out Hnd Hh).
+  - intros cid rxt txt. exact (update_tx_frame s cid rxt txt Hnd).
+Qed.
+Print Assumptions C07_frame.
 
 (* non-vacuity: a full store of capacity 2 evicts its least recently active client *)
 Example C07_evicts_minimum :
